@@ -88,16 +88,25 @@ type Site struct {
 }
 
 type Report struct {
-	Sites      []Site   `json:"sites"`
-	MapRanges  []string `json:"map_ranges"`
-	SyncSites  []string `json:"sync_sites"`
-	GoStmts    []string `json:"go_stmts"`    // not simulated: reported so the driver can warn
-	ChanOps    []string `json:"chan_ops"`    // not simulated
-	ReflectMap []string `json:"reflect_map"` // MapRange/MapKeys/sync.Map.Range the seam cannot see
-	Globals    []string `json:"globals"`
-	Packages   []string `json:"packages"`
-	JpgoFiles  []string `json:"jpgo_files"`
-	TypeErrors []string `json:"type_errors"`
+	Sites      []Site     `json:"sites"`
+	MapRanges  []string   `json:"map_ranges"`
+	SyncSites  []string   `json:"sync_sites"`
+	GoStmts    []string   `json:"go_stmts"`    // not simulated: reported so the driver can warn
+	ChanOps    []string   `json:"chan_ops"`    // not simulated
+	ReflectMap []string   `json:"reflect_map"` // MapRange/MapKeys/sync.Map.Range the seam cannot see
+	Globals    []string   `json:"globals"`
+	Packages   []string   `json:"packages"`
+	JpgoFiles  []string   `json:"jpgo_files"`
+	TypeErrors []string   `json:"type_errors"`
+	Functions  []FuncInfo `json:"functions"` // built-in functions found in the library's function table
+}
+
+// FuncInfo is one entry of a map[string]functionEntry-like table: name, arity and the
+// argument type names as written in the source (best effort, purely syntactic).
+type FuncInfo struct {
+	Name     string     `json:"name"`
+	Args     [][]string `json:"args"`
+	Variadic bool       `json:"variadic"`
 }
 
 var (
@@ -568,6 +577,49 @@ func typedRewrites(fset *token.FileSet, f *ast.File, info *types.Info, ed *edito
 				// X was re-emitted verbatim: only the body is visited further
 				visit(x.Body)
 				return false
+			case *ast.CompositeLit:
+				// the built-in function table: a map literal with string keys whose values are
+				// struct literals having an "arguments" (or similar) list of type lists
+				if tv, ok := info.Types[x]; ok && tv.Type != nil {
+					if mt, ok := tv.Type.Underlying().(*types.Map); ok {
+						if b, ok := mt.Key().Underlying().(*types.Basic); ok && b.Kind() == types.String && strings.Contains(strings.ToLower(mt.Elem().String()), "function") {
+							for _, el := range x.Elts {
+								kv, ok := el.(*ast.KeyValueExpr)
+								if !ok {
+									continue
+								}
+								kl, ok := kv.Key.(*ast.BasicLit)
+								if !ok || kl.Kind != token.STRING {
+									continue
+								}
+								fi := FuncInfo{Name: strings.Trim(kl.Value, "\"`")}
+								ast.Inspect(kv.Value, func(m ast.Node) bool {
+									if kv2, ok := m.(*ast.KeyValueExpr); ok {
+										if id, ok := kv2.Key.(*ast.Ident); ok {
+											switch id.Name {
+											case "variadic":
+												if v, ok := kv2.Value.(*ast.Ident); ok && v.Name == "true" {
+													fi.Variadic = true
+												}
+											case "types":
+												var ts []string
+												ast.Inspect(kv2.Value, func(t ast.Node) bool {
+													if tid, ok := t.(*ast.Ident); ok && strings.HasPrefix(tid.Name, "jp") && tid.Name != "jpType" {
+														ts = append(ts, tid.Name)
+													}
+													return true
+												})
+												fi.Args = append(fi.Args, ts)
+											}
+										}
+									}
+									return true
+								})
+								report.Functions = append(report.Functions, fi)
+							}
+						}
+					}
+				}
 			case *ast.CallExpr:
 				if se, ok := x.Fun.(*ast.SelectorExpr); ok {
 					if fn, ok := info.Uses[se.Sel].(*types.Func); ok && fn.Pkg() != nil {
